@@ -111,6 +111,15 @@ void useHeter()
 		d.dispatch(1, 2); d.dispatch(1);
 	}
 	{
+		// a prototype with a non-const lvalue reference parameter: the filters have to run for it too (and may rewrite the argument)
+		using D = eventpp::HeterEventDispatcher<int, eventpp::HeterTuple<void (Payload &), void (int)>, PoliciesHeterFilter>;
+		D d;
+		d.appendListener(1, [](Payload &) {}); d.appendListener(1, [](int) {});
+		auto fh = d.appendFilter([](Payload &) -> bool { return true; }); (void)fh;
+		auto fh2 = d.appendFilter([](int &) -> bool { return true; }); (void)fh2;
+		Payload p; d.dispatch(1, p); d.dispatch(1, 5);
+	}
+	{
 		using D = eventpp::HeterEventDispatcher<int, eventpp::HeterTuple<void (int), void ()>, PoliciesHeterTwoMixins>;
 		D d;
 		d.appendListener(1, [](int) {}); d.appendListener(1, []() {});
